@@ -87,7 +87,7 @@ def prepare(theorems, log=print):
         try: prep.extract = json.loads(out.strip().splitlines()[-1])
         except Exception: prep.extract = {'raw': out[-500:]}
         if rc != 0 and not isinstance(prep.extract.get('failed'), dict):
-            prep.extract = {'failed': {g: out[-1500:] for g in ('Tables', 'Lex', 'Kinds', 'Actions', 'Heredoc', 'Effects', 'Rank')}}
+            prep.extract = {'failed': {g: out[-1500:] for g in ('Tables', 'Lex', 'Kinds', 'Actions', 'Heredoc', 'Helpers', 'Effects', 'Rank')}}
         if prep.extract.get('failed'):
             log('extract failed for %s' % sorted(prep.extract['failed']))
         t0 = time.time()
